@@ -409,6 +409,10 @@ class RefDevice:
             m = self._extra(conn, kind, key)
             if m is not None:
                 msgs.append(m)
+        if d.get("post_mutated") is not None and resp_pkts:
+            # an altered copy of the response follows it (picked up by the next exchange's drain)
+            msgs.append(self._mutate(resp_pkts[-1], d["post_mutated"]))
+            conn.state["desync"] = True
         honest = not any(d.get(k) for k in ("raw", "mutate", "byz", "app"))
         if not honest:
             conn.state["desync"] = True     # hostile bytes may have broken the stream framing
